@@ -298,6 +298,14 @@ pub fn run(ctx: &Ctx) -> (Stats, Report) {
                     let t = sec * 1_000_000 + us;
                     st.evaluations += 1;
                     st.nontrivial_enum += 1;
+                    if us == 0 {
+                        // whole seconds also through the Oracle-style date
+                        st.evaluations += 1;
+                        if let Err(m) = check_trunc(2, u, bref, n, t) {
+                            st.fail(k, Case::new(P, "trunc", vec![2, u.index() as i128, n as i128, t as i128], vec![]), m);
+                            return;
+                        }
+                    }
                     if let Err(m) = check_trunc(1, u, bref, n, t) {
                         st.fail(k, Case::new(P, "trunc", vec![1, u.index() as i128, n as i128, t as i128], vec![]), m);
                         return;
